@@ -55,9 +55,10 @@ Print Assumptions reload_total_v0_refuted.
 (* non-vacuity *)
 Example C19_example :
   forallb wf_op ex_history = true /\
-  map w_name (mem (run ex_history init)) = ["a.wlt"; "t.wlt"]%string /\
-  map w_name (disk (run ex_history init)) = ["a.wlt"; "c.wlt"]%string /\
-  map w_n (mem (run ex_history init)) = [5; 1] /\
+  map w_name (mem (run ex_history init)) = ["a.wlt"; "t.wlt"; "b.wlt"]%string /\
+  map w_name (disk (run ex_history init)) = ["a.wlt"; "c.wlt"; "b.wlt"]%string /\
+  map w_n (mem (run ex_history init)) = [5; 1; 2] /\
+  map w_c (disk (run ex_history init)) = [0; 0; 3] /\
   mem_eq_disk_b (run ex_history init) = true.
 Proof. exact ex_history_ok. Qed.
 Print Assumptions C19_example.
